@@ -288,9 +288,18 @@ def evaluate__treat_expression(self: XPathToken, context: ta.ContextType = None)
         for _ in self[0].select(context):
             raise self.error('XPDY0050')
     elif self[1].label in ('kind test', 'sequence type', 'function test'):
-        for position, item in enumerate(self[0].select(context)):
-            result = self[1].evaluate(context)
-            if not result and isinstance(result, list):
+        if context is None:
+            raise self.missing_context()
+
+        for position, item in enumerate(self[0].select(copy(context))):
+            # the sequence type is tested on each item of the operand, not on the context item
+            item_context = copy(context)
+            item_context.item = item
+            if item_context.axis is None:
+                item_context.axis = 'self'
+
+            result = self[1].evaluate(item_context)
+            if isinstance(result, list) and not result:
                 raise self.error('XPDY0050')
             elif position and occurs in ('', '?'):
                 raise self.error('XPDY0050', "more than one item in sequence")
